@@ -1,0 +1,24 @@
+// Copyright (c) 2019,CAOHONGJU All rights reserved.
+// Use of this source code is governed by a MIT-style
+// license that can be found in the LICENSE file.
+
+//go:build !verif
+// +build !verif
+
+// Package simhook 仅在 verif 构建标签下生效的仿真调度钩子。
+// 默认构建(无 verif 标签)下所有函数为空函数，不改变任何行为。
+package simhook
+
+import "sync"
+
+// Y 调度点（默认构建为空函数）。
+func Y(site string) {}
+
+// Probe 到达计数（默认构建为空函数）。
+func Probe(name string) {}
+
+// BeforeLock 默认构建为空函数。
+func BeforeLock(mu *sync.Mutex) {}
+
+// BeforeRWLock 默认构建为空函数。
+func BeforeRWLock(mu *sync.RWMutex) {}
